@@ -52,14 +52,19 @@ def run(ctx):
         "(go/overlay/c02_consts.go) and compared with the model's constants (line `consts`); /repo is not modified",
         "AsFloat64 (sign and one-ulp clauses) is proved for all 2^128 values of both types over GoSem.F64: the three "
         "roundings float64(hi), float64(lo), sum (nearest, ties to even; the product by 2^64 is exact) give a normal "
-        "float m*2^e with the value's sign and |m*2^e - x| <= 2^e, where `one unit in the last place` is the unit 2^e "
-        "of the *result* (equal to the unit of x's binade except when the result is rounded up to a power of two, "
-        "where it is twice that); the bound is attained up to 1 (hi = 2^53+1, lo = 2^64-1) and needs ties-to-even",
-        "FromString `rejects text that is not an integer`: for texts without e/E the accepted texts are proved to be "
-        "exactly the literals of a declarative grammar (Conv.IsPlainIntLiteral) with their denoted value; for texts "
-        "with e/E acceptance is proved equivalent to: no '/', and the transcribed big.Rat scanner reads a fraction n/d "
-        "whose exact value is the integer result. A declarative grammar of that mantissa/exponent scanner is NOT "
-        "proved (kept as C02.fromString_rejects_Statement); the scanner is compared with math/big on every run",
+        "float m*2^e with the value's sign and |m*2^e - x| <= one unit in the last place, under both readings of the "
+        "unit: 2^e of the result (asFloat64_within_ulp_u/_i) and 2^k of the exact value's binade "
+        "(asFloat64_within_ulp_of_value_u/_i; they differ only when the result is rounded up to a power of two); the "
+        "bound is attained up to 1 (hi = 2^53+1, lo = 2^64-1: error 2^65-1, unit 2^65) and needs ties-to-even",
+        "FromString `rejects text that is not an integer` is proved in both directions for every text "
+        "(C02.fromString_rejects, C02.fromString_spec): the accepted texts are exactly the literals of a declarative "
+        "grammar with their denoted value -- Conv.IsPlainIntLiteral for texts without e/E (sign, 0b/0o/0x/legacy-0 "
+        "prefixes, single inner underscores, Horner value), Conv.IsExpIntLiteral for texts with e/E and without '/' "
+        "(mantissa with optional prefix and radix point, e/E/p/P exponent fitting int64, exact rational value "
+        "+-mantissa*base^(-fraction digits)*(10|2)^exponent equal to the integer result, stated over Mathlib's Q). "
+        "The grammar includes math/big's limits on the collected exponents (|power of 5| <= 10^6, |power of 2| <= "
+        "10^7): an integer literal beyond them (e.g. 1e1000001) is an error, not a saturated value -- this is the "
+        "behaviour of the real code (replayed) and is part of the modelled grammar, not of the property text",
     ]
     ctx.assumptions += [
         "input texts are shorter than 2^31 bytes (the int64 arithmetic on digit counts in big.Rat.SetString does not wrap)",
